@@ -561,10 +561,18 @@ class GroupKeyEnvelope:
                 peer_public_key=self.l2_key,
             )
         else:
+            l2_key = self.l2_key
+            if not l2_key:
+                # MS-GKDI 2.2.4 - the L2 key can be omitted when the L2 index
+                # is 31, it is derived from the L1 key in that case.
+                if self.l2 != 31 or not self.l1_key:
+                    raise ValueError("Group key envelope does not contain the seed key for the L2 key")
+                l2_key = compute_l2_key(hash_algo, self.l1, self.l2, self)
+
             key_info = os.urandom(32)
             kek = kdf(
                 hash_algo,
-                self.l2_key,
+                l2_key,
                 KDS_SERVICE_LABEL,
                 key_info,
                 32,
